@@ -407,6 +407,11 @@ def process(ctx, recipes, name):
             def still(c, site=site, cls=cls):
                 return any(s == site and c2 == cls for s, c2, _, _ in evaluate(c, None)[2])
             small = shrink(rec, still) if cls != "not-psd" else rec
+            if small is not rec:
+                try:
+                    detail = next((d for s2, c2, d, _ in evaluate(small, None)[2] if s2 == site and c2 == cls), detail)
+                except Exception:  # noqa
+                    pass
             ctx.violation(site, cls, small, detail=detail)
         if reqs:
             ctx.sample({"recipe": rec, "request": reqs[-1], "impl": impls[-1]}, cap=3)
